@@ -14,6 +14,8 @@ var (
 	ZeroRatesErrorInt    int64 = -4
 	PSMALLOneWayError          = errors.New("small marketcap assets conversions are one way only at this height, they cannot be a conversion destination")
 	PSMALLOneWayErrorInt int64 = -5
+	NoConversionError          = errors.New("the conversion amount cannot be computed at the current rates (overflow, or no average rate available)")
+	NoConversionErrorInt int64 = -6
 )
 
 // IsRejectedTx takes an error, and returns the integer form of that error
@@ -34,6 +36,9 @@ func IsRejectedTx(err error) (int64, error) {
 	}
 	if err == ZeroRatesError {
 		return ZeroRatesErrorInt, nil
+	}
+	if err == NoConversionError {
+		return NoConversionErrorInt, nil
 	}
 	return 0, err
 }
